@@ -70,6 +70,27 @@ func stdCfg() cfg {
 	return cfg{hostMAC: lib.HostMAC, routerMAC: lib.RouterMAC, routerIP: lib.RouterIP4, lan: lib.HomeLAN}
 }
 
+// other NIC configurations: the router address stays 192.168.0.11 (the generators aim at it); the home LAN
+// varies so that the probed addresses of the universe fall on both sides of its boundary
+func altCfgs() []cfg {
+	mk := func(p string) cfg {
+		c := stdCfg()
+		c.lan = netip.MustParsePrefix(p)
+		return c
+	}
+	c5 := mk("192.168.0.0/24")
+	c5.hostMAC = net.HardwareAddr{0x02, 0xaa, 0, 0, 0, 0x01}
+	c5.routerMAC = net.HardwareAddr{0x02, 0xbb, 0, 0, 0, 0x02}
+	return []cfg{mk("192.168.0.0/25"), mk("192.168.0.0/16"), mk("192.168.0.0/30"), mk("192.168.0.2/32"),
+		mk("10.0.0.0/8"), mk("128.0.0.0/1"), netipZeroBits(), c5}
+}
+
+func netipZeroBits() cfg {
+	c := stdCfg()
+	c.lan = netip.PrefixFrom(netip.MustParseAddr("192.168.0.0"), 0) // contains every IPv4 address
+	return c
+}
+
 func (c cfg) session() (*packet.Session, *lib.RecConn) {
 	return lib.NewSessionWith(&packet.NICInfo{
 		HomeLAN4:    c.lan,
@@ -659,6 +680,40 @@ func main() {
 		runCase(r, append([]string{std}, fixHints(d)...), 1)
 		r.Stat("class.directed", 1)
 	}
+	// corpus: the witnesses of the repaired defects and past disagreements ("seq ..." lines)
+	if dir := os.Getenv("VERIF_CORPUS"); dir != "" {
+		if ents, err := os.ReadDir(dir); err == nil {
+			for _, e := range ents {
+				b, err := os.ReadFile(dir + "/" + e.Name())
+				if err != nil {
+					continue
+				}
+				for _, l := range strings.Split(string(b), "\n") {
+					f := strings.Fields(l)
+					if len(f) < 2 || f[0] != "seq" {
+						continue
+					}
+					timedLine := false
+					for _, t := range f {
+						if strings.HasPrefix(t, "@") {
+							timedLine = true
+						}
+					}
+					if timedLine {
+						wg.Add(1)
+						go func(script []string) {
+							defer wg.Done()
+							runCase(r, script, 3)
+							r.Stat("class.corpus", 1)
+						}(f[1:])
+					} else {
+						runCase(r, f[1:], 1)
+						r.Stat("class.corpus", 1)
+					}
+				}
+			}
+		}
+	}
 
 	// immediate-effect sequences, in parallel workers
 	nImm := 1500
@@ -682,9 +737,14 @@ func main() {
 			}
 		}()
 	}
+	alts := altCfgs()
 	for i := 0; i < nImm; i++ {
 		n := 3 + rng.Intn(40)
-		jobs <- append([]string{std}, genImmediate(rng.Fork(), n)...)
+		ct := std
+		if i%4 == 3 {
+			ct = alts[(i/4)%len(alts)].tok()
+		}
+		jobs <- append([]string{ct}, genImmediate(rng.Fork(), n)...)
 	}
 	close(jobs)
 	wg2.Wait()
